@@ -20,6 +20,18 @@ fn main() {
     match args[1].as_str() {
         "reader" => cmd_reader(&job),
         "writer" => cmd_writer(&job),
+        "codec" => {
+            let mut t = Trace::create(job["out"].as_str().unwrap());
+            let runs = vharness::codec::run(&job, &mut t);
+            let lines = t.finish();
+            println!("{}", serde_json::json!({"runs": runs, "events": lines}));
+        }
+        "residuals" => {
+            let mut t = Trace::create(job["out"].as_str().unwrap());
+            let runs = vharness::codec::run_residuals(&job, &mut t);
+            let lines = t.finish();
+            println!("{}", serde_json::json!({"runs": runs, "events": lines}));
+        }
         "crash" => {
             let mut t = Trace::create(job["out"].as_str().unwrap());
             let runs = vharness::crash::run(&job, &mut t);
